@@ -231,6 +231,7 @@ class DegreeIter(_NQ):
             D = total
         ctx.notes.append('counting facts assumed at a degree iterator call: the number of elements of a collection is positive iff it has a member')
         ctx.last_degree = D
+        ctx.last_degree_t = t
         if nb.kind == 'none':
             return VBag([Node], lambda x: g['NodeIn'][x], lambda x: VTuple([VNode(x), VInt(D(x))]), note='degree pairs')
         if nb.kind == 'node':
@@ -278,6 +279,26 @@ def run_case(cls, fname, removal, history, n, t):
             exp = [q for q in ids if n in nodes and any(_expected(M, w_, n, q, nodes) for w_ in both)]
         if sorted(res) != sorted(exp):
             return {'C02.get_node_snapshots.each_snapshot_with_the_node_once': 'get_node_snapshots(%r) = %r, expected %r' % (n, res, exp)}
+        return {}
+    if fname == 'number_of_interactions':
+        try:
+            res, exp = G.number_of_interactions(t=t), G.size(t)
+        except Exception as ex:
+            return {'C02.number_of_interactions_all.no_exception.%s' % type(ex).__name__: repr(ex)}
+        return {} if res == exp else {'C02.number_of_interactions_all.returns_the_size': 'number_of_interactions(t=%r) = %r, size(%r) = %r' % (t, res, t, exp)}
+    if fname == 'size':
+        try:
+            res = G.size(t)
+        except Exception as ex:
+            return {'C02.size.no_exception.%s' % type(ex).__name__: repr(ex)}
+        if cls == 'DynDiGraph':
+            pairs = [(a, b) for a in nodes for b in _expected(M, 'succ', a, t, nodes)]
+        else:
+            pairs = [(a, b) for i, a in enumerate(nodes) for b in _expected(M, 'adj', a, t, nodes) if b in nodes[i:]]
+            if any(a == b for a, b in pairs):
+                return {}               # a self-loop present: the region of known finding D11 (its own witness reports it)
+        if res != len(pairs):
+            return {'C02.size.is_half_the_sum_of_degrees': 'size(%r) = %r, interactions present: %r' % (t, res, pairs)}
         return {}
     if fname in ('has_node', 'nodes', 'nodes_iter', 'number_of_nodes'):
         try:
@@ -366,7 +387,7 @@ def _search_real(self, engine):
             if any(o[0] != o[1] for o in outs) or not M.keys():
                 continue
             for t in ([None] + list(qs_of(M)) if self.fname != 'get_node_snapshots' else [None]):
-                if self.fname.endswith('degree_iter') or self.fname in ('nodes', 'nodes_iter', 'number_of_nodes'):
+                if self.fname.endswith('degree_iter') or self.fname in ('nodes', 'nodes_iter', 'number_of_nodes', 'size', 'number_of_interactions'):
                     ns = (None,)
                 elif self.fname in ITER_OF:
                     ns = (None, 1, 2, 3, ['list', 1], ['list', 3], ['list', 9])
@@ -404,6 +425,12 @@ class _OverDegree(_NQ):
             ks.append('%s::%s.degree' % (self.mod, self.cls))
         return ks
 
+    def at_callers_t(self, ctx, c, what):
+        """the degree iterator was asked at the caller's own t (None when the caller's t is None)"""
+        t = getattr(ctx, 'last_degree_t', None)
+        ok = t is not None and ((t.kind == 'none') if c.t is None else (t.kind == 'int' and t.z.eq(c.t)))
+        ctx.oblige('C02.%s.asks_the_degrees_at_the_callers_t' % what, z3.BoolVal(bool(ok)), tags=T, kind='call-site')
+
     def some_neighbour(self, ctx, c, a, b):
         """b witnesses that a has an interaction present (t given) in one of the maps the degree counts"""
         return z3.Or(*[self.R(ctx, c, w, a, b) for w in (['succ', 'pred'] if self.directed else ['adj'])])
@@ -438,6 +465,7 @@ class DegreeQuery(_OverDegree):
         D = getattr(ctx, 'last_degree', None)
         if D is None:
             return self.forbid(ctx, 'C02.degree_query.asks_the_degree_iterator', tags=T)
+        self.at_callers_t(ctx, c, 'degree_query')
         if c.nb == 'none':
             if r.kind != 'nodemap':
                 return self.shape(ctx, 'C02.degree_query.returns_a_dict_over_the_nodes', tags=T, note='result kind %s' % r.kind)
@@ -597,6 +625,45 @@ class NumberOfNodes(_OverDegree):
         self.unchanged(ctx, c, 'number_of_nodes')
 
 
+class Size(_OverDegree):
+    """size(t)   ensures  the result is  int(S / 2)  where S is the sum of the values of a map that has exactly one entry per node of G, the
+    entry of a being the number the degree iterator yields for a at t (whose meaning is DegreeIter's contract: the number of neighbours
+    present; `degree` is read through, the iterator is applied by contract);  S >= 0 is the counting fact assumed (a sum of numbers of
+    elements);  G not modified.
+    trusted  handshake lemma: the degrees of a static graph add up to twice its number of edges (a self-loop counting twice, which is
+             the region of known finding D11 on DynGraph), so int(S / 2) is the number of interactions present at t"""
+
+    def __init__(self, cls, bound_n=None):
+        MAPS['size'] = None
+        _NQ.__init__(self, cls, 'size', bound_n)
+
+    def variants(self):
+        return [{'mode': m, 't': t} for m in ('removal', 'accum') for t in ('int', 'none')]
+
+    def setup(self, ctx, variant):
+        c = self.base(ctx, variant)
+        c.argv = [VGraph(c.g), VInt(c.t) if c.t is not None else VNone]
+        return c
+
+    def finish(self, ctx, c, outcome):
+        if outcome[0] == 'raise':
+            return self.forbid(ctx, 'C02.size.no_exception.%s' % outcome[1], tags=T, note=outcome[2])
+        r = outcome[1]
+        D = getattr(ctx, 'last_degree', None)
+        sums = getattr(ctx, 'mapsums', [])
+        if D is None or len(sums) != 1:
+            return self.shape(ctx, 'C02.size.sums_one_degree_map', tags=T, note='%d sums over node maps' % len(sums))
+        S, m = sums[0]
+        ctx.assume(S >= 0, 'call')
+        self.at_callers_t(ctx, c, 'size')
+        ctx.oblige('C02.size.sums_one_entry_per_node', m.dom(c.qb) == c.pre['NodeIn'][c.qb], tags=T)
+        v = m.get(c.qb)
+        ctx.oblige('C02.size.sums_the_degree_of_every_node_at_the_callers_t',
+                   z3.Implies(c.pre['NodeIn'][c.qb], v.z == D(c.qb)) if v.kind == 'int' else z3.BoolVal(False), tags=T)
+        ctx.oblige('C02.size.is_half_the_sum_of_degrees', z3.And(2 * r.z <= S, S <= 2 * r.z + 1) if r.kind == 'int' else z3.BoolVal(False), tags=T)
+        self.unchanged(ctx, c, 'size')
+
+
 class GetNodeSnapshots(_OverDegree):
     """get_node_snapshots(n)   ensures  the returned list holds exactly the snapshot ids t with has_node(n, t), each once
     (modular against temporal_snapshots_ids and has_node; the ORDER of the list - ascending, as the ids are visited in ascending order -
@@ -660,3 +727,58 @@ class GetNodeSnapshots(_OverDegree):
             return self.shape(ctx, 'C02.get_node_snapshots.returns_a_list_of_ids', tags=T, note='result kind %s' % r.kind)
         ctx.oblige('C02.get_node_snapshots.each_snapshot_with_the_node_once', cnt[c.q] == b2i(z3.And(c.pre['SKey'][c.q], c.HN(c.n, c.q))), tags=T)
         self.unchanged(ctx, c, 'get_node_snapshots')
+
+
+def _size_apply(self, interp, g, argv, kwv):
+    """size(t): an integer (the contract above says which); the t it was asked at is remembered for the caller's clause"""
+    ctx = interp.ctx
+    args = dict(zip(['t'], argv))
+    args.update(kwv)
+    extra = [k for k in args if k != 't']
+    if extra:
+        raise Undecided('size called with %r' % extra)
+    tok = fresh('size_result', Int)
+    if not hasattr(ctx, 'size_calls'):
+        ctx.size_calls = []
+    ctx.size_calls.append((args.get('t', VNone), tok))
+    return VInt(tok)
+
+
+Size.apply = _size_apply
+
+
+class NumberOfInteractionsAll(_NQ):
+    """number_of_interactions(u=None, v=None, t): the whole-graph form
+    ensures  exactly one call of size, at the caller's own t (no argument or None when t is None); the result is that call's result
+             (size's own contract says what it is); no exception; G not modified"""
+
+    def __init__(self, cls, bound_n=None):
+        MAPS['number_of_interactions'] = None
+        _NQ.__init__(self, cls, 'number_of_interactions', bound_n)
+
+    def variants(self):
+        return [{'mode': m, 't': t} for m in ('removal', 'accum') for t in ('int', 'none')]
+
+    def uses(self, eng):
+        return [Size(self.cls)]
+
+    def reads(self):
+        return []
+
+    def setup(self, ctx, variant):
+        c = self.base(ctx, variant)
+        c.argv = [VGraph(c.g), VNone, VNone, VInt(c.t) if c.t is not None else VNone]
+        return c
+
+    def finish(self, ctx, c, outcome):
+        if outcome[0] == 'raise':
+            return self.forbid(ctx, 'C02.number_of_interactions_all.no_exception.%s' % outcome[1], tags=T, note=outcome[2])
+        r = outcome[1]
+        calls = getattr(ctx, 'size_calls', [])
+        if len(calls) != 1:
+            return self.forbid(ctx, 'C02.number_of_interactions_all.asks_size_once', tags=T, note='%d calls of size' % len(calls))
+        t, tok = calls[0]
+        ok = (t.kind == 'none') if c.t is None else (t.kind == 'int' and t.z.eq(c.t))
+        ctx.oblige('C02.number_of_interactions_all.asks_size_at_the_callers_t', z3.BoolVal(bool(ok)), tags=T, kind='call-site')
+        ctx.oblige('C02.number_of_interactions_all.returns_the_size', (r.z == tok) if r.kind == 'int' else z3.BoolVal(False), tags=T)
+        self.unchanged(ctx, c, 'number_of_interactions_all')
